@@ -934,22 +934,21 @@ theorem parseSct_ok_wf {bs : Bytes} {s : Sct} {n : Nat} (h : parseSct bs = .ok (
     show 47 + ext.length + sig.length < 256 ^ 2
     omega
 
-theorem parseSct_err {bs : Bytes} {e : PErr} (h : parseSct bs = .error e) :
-    Benign e ∨ e = .crash "TypeError" := by
+theorem parseSct_err {bs : Bytes} {e : PErr} (h : parseSct bs = .error e) : Benign e := by
   unfold parseSct at h
   rcases exceptBind_err_inv h with h0 | ⟨⟨blob, n0⟩, _, h⟩
-  · exact .inl (parseBytes_sizeErr (by rfl) h0).benign
+  · exact (parseBytes_sizeErr (by rfl) h0).benign
   simp only at h
   rcases exceptBind_err_inv h with h1 | ⟨⟨ver, a⟩, _, h⟩
-  · exact .inl (parseIntEnum_benign (by rfl) h1)
+  · exact parseIntEnum_benign (by rfl) h1
   simp only at h
   rcases exceptBind_err_inv h with h2 | ⟨⟨log, b⟩, _, h⟩
-  · exact .inl (parseRaw_benign h2)
+  · exact parseRaw_benign h2
   simp only at h
   rcases exceptBind_err_inv h with h3 | ⟨⟨ts, c⟩, _, h⟩
   · unfold parseTimestamp at h3
     rcases exceptBind_err_inv h3 with h31 | ⟨⟨v, n'⟩, _, h3⟩
-    · exact .inl (parseNum_sizeErr (by rfl) h31).benign
+    · exact (parseNum_sizeErr (by rfl) h31).benign
     · simp only at h3
       split at h3
       · cases h3
@@ -957,13 +956,13 @@ theorem parseSct_err {bs : Bytes} {e : PErr} (h : parseSct bs = .error e) :
         cases h3
   simp only at h
   rcases exceptBind_err_inv h with h4 | ⟨⟨ext, d⟩, _, h⟩
-  · exact .inl (parseOpaque_sizeErr ctExtensionsParam_ok.1 h4).benign
+  · exact (parseOpaque_sizeErr ctExtensionsParam_ok.1 h4).benign
   simp only at h
   rcases exceptBind_err_inv h with h5 | ⟨⟨alg, e'⟩, _, h⟩
-  · exact .inl (parseCoded_benign (by rfl) h5)
+  · exact parseCoded_benign (by rfl) h5
   simp only at h
   rcases exceptBind_err_inv h with h6 | ⟨⟨sig, f⟩, _, h⟩
-  · exact .inl (parseOpaque_sizeErr ctSignatureParam_ok.1 h6).benign
+  · exact (parseOpaque_sizeErr ctSignatureParam_ok.1 h6).benign
   simp only at h
   cases ts with
   | none => cases h; exact .inr rfl
@@ -1209,8 +1208,7 @@ theorem parseVecBody_errP {α : Type} {P : PErr → Prop} (hP : HasSizeErrs P) {
 
 /-- the errors a body parser of Ext2.lean can end in, besides the documented ones -/
 def Ext2Special (k : Ext2Kind) (len : Nat) (e : PErr) : Prop :=
-  (k = .serverName ∧ e = unmodelled) ∨ (k = .sctList ∧ e = .crash "TypeError") ∨
-    (k.declines len = true ∧ e = .invalidType)
+  (k = .serverName ∧ e = unmodelled) ∨ (k.declines len = true ∧ e = .invalidType)
 
 theorem nameSize_ok_of_parsed {p : VecParam} {table : List Gen.WireName} {i : Nat} {e : PErr}
     (hx : ∃ b n, parseName p table b = .ok (i, n)) (h : nameSize p table i = .error e) : False := by
@@ -1218,13 +1216,9 @@ theorem nameSize_ok_of_parsed {p : VecParam} {table : List Gen.WireName} {i : Na
   have hi := (parseName_ok_inv hb).1
   simp [nameSize, List.getElem?_eq_getElem hi] at h
 
-theorem sctErr_hasSizeErrs : HasSizeErrs (fun e => Benign e ∨ e = PErr.crash "TypeError") :=
-  ⟨fun n => .inl (Benign.hasSizeErrs.notEnough n), fun n => .inl (Benign.hasSizeErrs.tooMuch n)⟩
-
 /-- every error of a body parser is a documented parse error, or — for one class each — the
-model's boundary marker (a server name the idna codec would change), the `TypeError` of the SCT
-constructor (no-timestamp sentinel), the `InvalidType` by which the HelloRetryRequest form of
-`key_share` declines an extension that is not two bytes long -/
+model's boundary marker (a server name the idna codec would change), the `InvalidType` by which the
+HelloRetryRequest form of `key_share` declines an extension that is not two bytes long -/
 theorem parseExt2Body_err {k : Ext2Kind} {len : Nat} {rest : Bytes} {e : PErr}
     (h : parseExt2Body k len rest = .error e) : Benign e ∨ Ext2Special k len e := by
   cases k with
@@ -1292,7 +1286,7 @@ theorem parseExt2Body_err {k : Ext2Kind} {len : Nat} {rest : Bytes} {e : PErr}
     split at h
     · next hl =>
       cases h
-      exact .inr (.inr (.inr ⟨by simpa [Ext2Kind.declines] using hl, rfl⟩))
+      exact .inr (.inr ⟨by simpa [Ext2Kind.declines] using hl, rfl⟩)
     · rcases exceptBind_err_inv h with h1 | ⟨_, _, h⟩
       · exact .inl (parseCoded_benign (by rfl) h1)
       · cases h
@@ -1314,14 +1308,11 @@ theorem parseExt2Body_err {k : Ext2Kind} {len : Nat} {rest : Bytes} {e : PErr}
   | sctList =>
     simp only [parseExt2Body] at h
     rcases exceptBind_err_inv h with h1 | ⟨_, _, h⟩
-    · have := parseVecItems_errP sctErr_hasSizeErrs sctListParam_ok.1
+    · exact .inl (parseVecItems_errP Benign.hasSizeErrs sctListParam_ok.1
         (fun _ _ h => parseSct_err h) (fun _ _ _ h => (parseSct_ok_wf h).2.1)
         (fun x e' ⟨b, n, hb⟩ hs => by
           rw [(sct_itemRT x (parseSct_ok_wf hb).1).2] at hs
-          cases hs) h1
-      rcases this with hb | rfl
-      · exact .inl hb
-      · exact .inr (.inr (.inl ⟨rfl, rfl⟩))
+          cases hs) h1)
     · cases h
 
 /-- a class that declines the declared length answers `InvalidType` whatever the data -/
@@ -1334,10 +1325,9 @@ theorem ext2_declines_parse {k : Ext2Kind} {len : Nat} (hd : k.declines len = tr
 theorem ext2_not_declines {k : Ext2Kind} {len : Nat} (hd : k.declines len = false) (rest : Bytes) :
     parseExt2Body k len rest ≠ .error .invalidType := by
   intro h
-  rcases parseExt2Body_err h with hb | ⟨_, he⟩ | ⟨_, he⟩ | ⟨hd', _⟩
+  rcases parseExt2Body_err h with hb | ⟨_, he⟩ | ⟨hd', _⟩
   · exact hb.not_invalidType rfl
   · simp [unmodelled] at he
-  · cases he
   · rw [hd] at hd'; cases hd'
 
 /-! ### extension data a class rejects whatever follows it -/
